@@ -423,6 +423,11 @@ class Stmts:
         fr.in_spec = True
         try:
             return self.ev(node, fr)
+        except PathEnd as e:
+            if "infeasible" in str(e):
+                raise
+            # a silently dropped path would make the clause vacuously true
+            raise Unsupported(f"evaluation of spec clause {expr[:60]!r} aborted: {e}")
         finally:
             fr.in_spec = old
 
